@@ -4,7 +4,7 @@
    correspondence run.  A dataset is its kind, its sampling points ([sampling]) and its
    values, one flattened row per observation ([values]). *)
 From Coq Require Import List Bool Reals QArith.
-From FDAV Require Import Base.Num Base.Vec Model.Arith Lemmas.Arith.
+From FDAV Require Import Base.Num Base.Vec Model.Arith Lemmas.Arith Lemmas.ArithMore.
 Import ListNotations.
 Local Open Scope R_scope.
 
@@ -65,6 +65,17 @@ Print Assumptions C12_add_sub_cancel.
 Theorem C12_mul_one : forall (a : fd R), scalar_op opsR Mul a 1 = a.
 Proof. exact mul_one. Qed.
 Print Assumptions C12_mul_one.
+(* the other neutral scalars: the VALUES of a + 0, a - 0, a / 1 are those of a (that the result is nevertheless a NEW object
+   is checked on the implementation by the neutral-scalar monitor of ./check C12) *)
+Theorem C12_add_zero : forall (a : fd R), scalar_op opsR Add a 0 = a.
+Proof. exact add_zero. Qed.
+Print Assumptions C12_add_zero.
+Theorem C12_sub_zero : forall (a : fd R), scalar_op opsR Sub a 0 = a.
+Proof. exact sub_zero. Qed.
+Print Assumptions C12_sub_zero.
+Theorem C12_div_one : forall (a : fd R), scalar_op opsR Div a 1 = a.
+Proof. exact div_one. Qed.
+Print Assumptions C12_div_one.
 Theorem C12_add_comm : forall (a b r : fd R), binop opsR Add a b = Res r -> binop opsR Add b a = Res r.
 Proof. exact add_comm. Qed.
 Print Assumptions C12_add_comm.
